@@ -76,6 +76,14 @@ def boundary_programs():
     add("PROTO-dup", ("PROTO", 2), ("PROTO", 4), "NONE")
     add("FRAME", ("PROTO", 4), ("FRAME", 2), "NONE")
     add("FRAME-nested-data", ("PROTO", 4), ("FRAME", 6), ("SHORT_BINUNICODE", "ab"), "MEMOIZE")
+    # frames that do not tile the pickle: bytes after a frame's end, an unframed opcode between frames, empty frames
+    add("FRAME-partial", ("PROTO", 4), ("FRAME", 1), "NONE", "POP", "NONE")
+    add("FRAME-gap", ("PROTO", 4), ("FRAME", 2), "NONE", "POP", ("BININT1", 7), "POP", ("FRAME", 1), "NONE")
+    add("FRAME-empty", ("PROTO", 4), ("FRAME", 0), "NONE")
+    add("FRAME-too-long", ("PROTO", 4), ("FRAME", 300), "NONE")
+    add("FRAME-two", ("PROTO", 5), ("FRAME", 2), "NONE", "POP", ("FRAME", 1), "NONE")
+    out.append(("big-out-of-frame-p4", __import__("pickle").dumps(("head", b"x" * 70000, "tail!"), protocol=4)))
+    out.append(("big-out-of-frame-p5", __import__("pickle").dumps(["h", "y" * 66000, {"k": b"z" * 65536}], protocol=5)))
     add("PERSID-less", "EMPTY_TUPLE", "BINPERSID")
     add("all-noarg", "MARK", "NONE", "NEWTRUE", "NEWFALSE", "EMPTY_LIST", "EMPTY_DICT", "EMPTY_SET", "EMPTY_TUPLE", "TUPLE", "DUP", "POP")
     add("sets", "EMPTY_SET", "MARK", ("BININT1", 1), "ADDITEMS", "MARK", ("BININT1", 2), "FROZENSET", "TUPLE2")
@@ -154,7 +162,12 @@ def _parse(item):
                 out.violate(PROP, f"C06|parse-fails|{delivery}|{type(e).__name__}",
                             f"{tag} + trailer {tname} via {delivery}: Pickled.load raised {type(e).__name__}: {e}", rp, len(data))
                 continue
-            dumped = p.dumps()
+            try:
+                dumped = p.dumps()
+            except Exception as e:  # noqa: BLE001
+                out.violate(PROP, f"C06|dumps-raises|{type(e).__name__}", f"{tag} via {delivery}: dumps() of the untouched parse raised {type(e).__name__}: {e}",
+                            rp, len(data))
+                continue
             if dumped != data:
                 k = next((i for i, (a, b) in enumerate(zip(dumped, data)) if a != b), min(len(dumped), len(data)))
                 bad = _op_at(data, k)
